@@ -27,6 +27,7 @@ static inline int myth_spin_trylock_body(myth_spinlock_t *lock);
 static inline int myth_spin_lock_body(myth_spinlock_t *lock) {
   int failed = 0;
   while (!myth_spin_trylock_body(lock)) {
+    MYTH_VERIF_SPIN(MVS_SPIN_LOCK);
     failed++;
   }
   return failed;
@@ -37,7 +38,9 @@ static inline int myth_compare_and_set_int(volatile int * a, int oldv, int newv)
 }
 
 static inline int myth_spin_trylock_body(myth_spinlock_t *lock) {
+  MYTH_VERIF_POINT(MVP_SPIN_TRY);
   if (myth_compare_and_set_int(&lock->locked, 0, 1)) {
+    MYTH_VERIF_FENCE(MVF_FULL);
     myth_rwbarrier();
     return 1;
   } else {
@@ -47,6 +50,7 @@ static inline int myth_spin_trylock_body(myth_spinlock_t *lock) {
 
 static inline int myth_spin_unlock_body(myth_spinlock_t *lock) {
   myth_rwbarrier();
+  MYTH_VERIF_POINT(MVP_SPIN_UNLOCK);
   lock->locked = 0;
   return 0;
 }
